@@ -41,14 +41,27 @@ class _Helper:
         self.name = fn.name
         decos = [ast.unparse(d) for d in fn.decorator_list]
         self.static = 'staticmethod' in decos
-        self.ok = all(d == 'staticmethod' for d in decos)
+        self.cm = any(d in ('contextmanager', 'contextlib.contextmanager') for d in decos)
+        self.ok = all(d in ('staticmethod', 'contextmanager', 'contextlib.contextmanager') for d in decos)
         a = fn.args
         if a.vararg or a.kwarg or a.posonlyargs or a.kwonlyargs:
             self.ok = False
+        yields = []
         for n in ast.walk(fn):
-            if isinstance(n, (ast.Yield, ast.YieldFrom, ast.Await, ast.Global, ast.Nonlocal, ast.Try,
+            if isinstance(n, ast.Yield):
+                yields.append(n)
+                continue
+            if isinstance(n, (ast.YieldFrom, ast.Await, ast.Global, ast.Nonlocal, ast.Try,
                               ast.With, ast.AsyncFunctionDef, ast.ClassDef)):
                 self.ok = False
+        # a generator: every yield is a statement of its own, nothing is returned
+        self.gen = False
+        if yields:
+            stmts = [st for st in ast.walk(fn) if isinstance(st, ast.Expr) and isinstance(st.value, ast.Yield)]
+            plain = len(stmts) == len(yields) and not any(
+                isinstance(n, ast.Return) and n.value is not None for n in ast.walk(fn))
+            self.gen = self.ok and plain and len(yields) <= 2
+            self.ok = False                 # never expanded as an ordinary call
             if n is not fn and isinstance(n, ast.FunctionDef):
                 self.ok = False
             if isinstance(n, ast.Call) and isinstance(n.func, ast.Name) and n.func.id == fn.name:
@@ -93,29 +106,18 @@ def _single_exit(stmts, target):
             if not any(isinstance(n, ast.Return) for n in ast.walk(st)):
                 out.append(st)
                 continue
-            b1 = _single_exit(st.body, target)
-            b2 = _single_exit(st.orelse, target)
+            # what follows the `if` belongs to every branch that does not return
+            rest = stmts[i + 1:]
+            if sum(1 for r in rest for _n in ast.walk(r)) > 1500:
+                return None
+            b1 = _single_exit(list(st.body) + copy.deepcopy(rest), target)
+            b2 = _single_exit(list(st.orelse) + rest, target)
             if b1 is None or b2 is None:
                 return None
-            rest = stmts[i + 1:]
             (s1, r1), (s2, r2) = b1, b2
-            if r1 and r2:
-                out.append(ast.copy_location(ast.If(test=st.test, body=s1 or [ast.Pass()], orelse=s2), st))
-                return out, True
-            tail = _single_exit(rest, target)
-            if tail is None:
-                return None
-            ts, tr = tail
-            if r1:
-                out.append(ast.copy_location(ast.If(test=st.test, body=s1 or [ast.Pass()],
-                                                    orelse=s2 + ts), st))
-            elif r2:
-                out.append(ast.copy_location(ast.If(test=st.test, body=(s1 + ts) or [ast.Pass()],
-                                                    orelse=s2 or []), st))
-            else:
-                # cannot happen: a Return was found below
-                return None
-            return out, tr
+            out.append(ast.copy_location(ast.If(test=st.test, body=s1 or [ast.copy_location(ast.Pass(), st)],
+                                                orelse=s2), st))
+            return out, r1 and r2
         out.append(st)
     return out, False
 
@@ -199,8 +201,130 @@ INTRODUCED = set()      # names that exist only because a helper was expanded
 _CALLER_NAMES = [frozenset()]
 
 
+def _expand_generator_loop(st, helpers, scope_cls):
+    """``for T in _gen(args): BODY`` with a private generator: the generator's
+    body with every ``yield v`` replaced by ``T = v; BODY``.  Exact when BODY
+    does not break (a break would have to leave all loops of the generator) and
+    every yield is the last statement of the block it stands in or BODY does
+    not continue."""
+    if not (isinstance(st, ast.For) and not st.orelse and isinstance(st.iter, ast.Call)):
+        return None
+    h = _resolve(st.iter, helpers, scope_cls)
+    if h is None or not h.gen or h.cm:
+        return None
+
+    def own_jumps(body, kinds):
+        found = []
+
+        def walk(n, in_loop):
+            for c in ast.iter_child_nodes(n):
+                if isinstance(c, (ast.FunctionDef, ast.Lambda, ast.ClassDef)):
+                    continue
+                if isinstance(c, kinds) and not in_loop:
+                    found.append(c)
+                walk(c, in_loop or isinstance(c, (ast.For, ast.While)))
+        for b in body:
+            if isinstance(b, kinds):
+                found.append(b)
+            walk(b, isinstance(b, (ast.For, ast.While)))
+        return found
+    if own_jumps(st.body, (ast.Break,)):
+        return None
+    has_continue = bool(own_jumps(st.body, (ast.Continue,)))
+    bound = _bind(h, st.iter, True, _CALLER_NAMES[0])
+    if bound is None:
+        return None
+    prelude, mapping = bound
+    # every yield hands over the same local of the generator: that local *is* the loop target
+    yv = [n.value for x in h.body for n in ast.walk(x) if isinstance(n, ast.Yield)]
+    same_local = None
+    if isinstance(st.target, ast.Name) and yv and all(
+            isinstance(v, ast.Name) and v.id == yv[0].id for v in yv if v is not None) \
+            and all(v is not None for v in yv) and yv[0].id in h.stored and yv[0].id not in h.params:
+        helper_names = {n.id for x in h.body for n in ast.walk(x) if isinstance(n, ast.Name)}
+        arg_names = {n.id for v in mapping.values() if isinstance(v, ast.AST)
+                     for n in ast.walk(v) if isinstance(n, ast.Name)} | \
+            {v for v in mapping.values() if isinstance(v, str)}
+        if st.target.id not in arg_names and (st.target.id == yv[0].id or st.target.id not in helper_names):
+            mapping = dict(mapping)
+            mapping[yv[0].id] = st.target.id
+            same_local = st.target.id
+    body = [_Subst(mapping).visit(copy.deepcopy(x)) for x in h.body]
+    ok = [True]
+
+    def place(block, in_loop):
+        out = []
+        for i, x in enumerate(block):
+            if isinstance(x, ast.Expr) and isinstance(x.value, ast.Yield):
+                if not in_loop and has_continue:
+                    ok[0] = False
+                if has_continue and i != len(block) - 1:
+                    ok[0] = False
+                val = x.value.value if x.value.value is not None else ast.Constant(value=None)
+                if not (same_local is not None and isinstance(val, ast.Name) and val.id == same_local):
+                    out.append(ast.copy_location(ast.Assign(targets=[copy.deepcopy(st.target)], value=val), st))
+                out.extend(copy.deepcopy(st.body))
+                continue
+            for field in ('body', 'orelse', 'finalbody'):
+                sub = getattr(x, field, None)
+                if isinstance(sub, list) and sub and isinstance(sub[0], ast.stmt):
+                    setattr(x, field, place(sub, in_loop or isinstance(x, (ast.For, ast.While))))
+            out.append(x)
+        return out
+    body = place(body, False)
+    if not ok[0]:
+        return None
+    if body and isinstance(body[-1], ast.Return) and body[-1].value is None:
+        body = body[:-1]
+    if any(isinstance(n, ast.Return) and n.value is None and n not in
+           [m for b in st.body for m in ast.walk(b)] for b in h.body for n in ast.walk(b)):
+        return None         # a bare return that ends the generator early
+    _EXPANDED.add(h.name)
+    return prelude + (body or [ast.copy_location(ast.Pass(), st)])
+
+
+def _expand_with(st, helpers, scope_cls):
+    """``with _cm(args) [as N]: BODY`` with a private generator-based context
+    manager that has one top-level yield and no try: what comes before the
+    yield, N = the yielded value, BODY, what comes after.  Exact when BODY
+    neither returns nor jumps (then the rest of the generator would not run)."""
+    if not (isinstance(st, ast.With) and len(st.items) == 1 and isinstance(st.items[0].context_expr, ast.Call)):
+        return None
+    call = st.items[0].context_expr
+    h = _resolve(call, helpers, scope_cls)
+    if h is None or not h.cm or not h.gen:
+        return None
+    tops = [i for i, x in enumerate(h.body) if isinstance(x, ast.Expr) and isinstance(x.value, ast.Yield)]
+    all_y = [n for x in h.body for n in ast.walk(x) if isinstance(n, ast.Yield)]
+    if len(tops) != 1 or len(all_y) != 1:
+        return None
+    if any(isinstance(n, (ast.Return, ast.Break, ast.Continue, ast.Yield, ast.YieldFrom))
+           for b in st.body for n in ast.walk(b)):
+        return None
+    bound = _bind(h, call, True, _CALLER_NAMES[0])
+    if bound is None:
+        return None
+    prelude, mapping = bound
+    body = [_Subst(mapping).visit(copy.deepcopy(x)) for x in h.body]
+    pre, y, post = body[:tops[0]], body[tops[0]], body[tops[0] + 1:]
+    mid = []
+    var = st.items[0].optional_vars
+    if var is not None:
+        val = y.value.value if y.value.value is not None else ast.Constant(value=None)
+        mid.append(ast.copy_location(ast.Assign(targets=[var], value=val), st))
+    elif y.value.value is not None and not isinstance(y.value.value, (ast.Constant, ast.Name)):
+        mid.append(ast.copy_location(ast.Expr(value=y.value.value), st))
+    _EXPANDED.add(h.name)
+    return prelude + pre + mid + list(st.body) + post
+
+
 def _expand_stmt(st, helpers, scope_cls):
     """Replacement statements for ``st`` if it is an expandable call site."""
+    rep = _expand_generator_loop(st, helpers, scope_cls)
+    if rep is None:
+        rep = _expand_with(st, helpers, scope_cls)
+    if rep is not None:
+        return rep
     call = target = None
     mode = None
     if isinstance(st, ast.Expr) and isinstance(st.value, ast.Call):
@@ -229,6 +353,25 @@ def _expand_stmt(st, helpers, scope_cls):
                 if rep is not None:
                     load = ast.copy_location(ast.Name(id=tmp, ctx=ast.Load()), inner)
                     st.test = ast.copy_location(ast.UnaryOp(op=ast.Not(), operand=load), test) if neg else load
+                    return rep + [st]
+        return None
+    if call is not None and _resolve(call, helpers, scope_cls) is None and mode in ('expr', 'assign', 'return') \
+            and isinstance(call.func, ast.Attribute):
+        # `helper(...).method(simple args)`: the helper call is evaluated first and
+        # once - bind its value, then call the method on it
+        recv_holder, recv = call.func, call.func.value
+        while isinstance(recv, ast.Attribute):
+            recv_holder, recv = recv, recv.value
+        if isinstance(recv, ast.Call):
+            h = _resolve(recv, helpers, scope_cls)
+            if h is not None and h.ok and h.expr is None and all(_simple_expr(a) for a in call.args) \
+                    and all(_simple_expr(k.value) for k in call.keywords):
+                tmp = 'result_%s' % h.name.strip('_')
+                bind = ast.copy_location(ast.Assign(targets=[ast.Name(id=tmp, ctx=ast.Store())], value=recv), st)
+                rep = _expand_stmt(bind, helpers, scope_cls)
+                if rep is not None:
+                    INTRODUCED.add(tmp)
+                    recv_holder.value = ast.copy_location(ast.Name(id=tmp, ctx=ast.Load()), recv)
                     return rep + [st]
         return None
     if call is None:
